@@ -397,10 +397,16 @@ pub fn real_vs_complex(cx: &RunCtx) {
     // extreme magnitudes (where a formula that squares or inverts its argument leaves the double range) and
     // operands next to the edges of the real domains, as literals
     let mut ext: Vec<String> = Vec::new();
-    for n in [20usize, 100, 153, 154, 155, 160, 170, 200, 250] {
+    for n in [20usize, 100, 153, 154, 155, 160, 170, 200, 250, 300, 305, 307, 308] {
         ext.push(format!("1{}", "0".repeat(n)));
         ext.push(format!("0.{}1", "0".repeat(n - 1)));
     }
+    // the topmost binade (where 2x overflows), the largest double, and the subnormals
+    ext.push(format!("9{}", "0".repeat(307)));
+    ext.push(format!("17976931348623157{}", "0".repeat(292)));
+    ext.push(format!("0.{}1", "0".repeat(309)));
+    ext.push(format!("0.{}1", "0".repeat(319)));
+    ext.push(format!("0.{}5", "0".repeat(323)));
     for t in [
         "1.0000001", "0.9999999", "1.000000001", "0.999999999", "1.0000000000001", "0.9999999999999", "100", "700", "709", "710", "1000", "1000000", "0.000001", "0.001", "20", "30", "37", "50",
         "1.5707963267948966", "3.141592653589793", "6.283185307179586", "2.718281828459045",
